@@ -364,3 +364,88 @@ func multiModelMismatch(fileBacked bool, ops []Op, obs []string) (*Mismatch, int
 	}
 	return nil, len(ops)
 }
+
+// fault-run records (C07): the calls made on handle 0 in order; a failed Flush is the line
+// "flushfail <k> <torn>" (k-th WriteAt call of that Flush, from 0, stored torn bytes and failed).
+type frec struct {
+	Line   string
+	Op     Op
+	Fail   bool
+	Obs    string
+	Digest string
+}
+
+var dfaultCompared, dfaultFlushFails int
+
+// DFModelMismatch runs DFaultRun.dfrun (DStore with failing Flush calls, DiskFault.flush_fault) on the
+// recorded calls and compares every observation and, after every failed or completed Flush, FlushRevert and
+// re-open, length and MD5 of the predicted file with the implementation's.
+func DFModelMismatch(recs []frec) *Mismatch {
+	total := 0
+	for _, r := range recs {
+		if r.Fail {
+			continue
+		}
+		o := r.Op
+		if o.H != 0 || !dmodelKinds[o.K] || len(o.Key) > 1500 || len(o.Val) > 6000 {
+			return nil
+		}
+		total += len(o.Key) + len(o.Val)
+	}
+	if total > 40000 {
+		return nil
+	}
+	m := getModel()
+	var sb strings.Builder
+	fmt.Fprintf(&sb, "dfrun %d\n", len(recs))
+	for _, r := range recs {
+		sb.WriteString(r.Line)
+		sb.WriteByte('\n')
+	}
+	if _, err := io.WriteString(m.in, sb.String()); err != nil {
+		return &Mismatch{Kind: "model-runner", Observed: err.Error()}
+	}
+	var lines []string
+	for {
+		line, err := m.out.ReadString('\n')
+		if err != nil {
+			return &Mismatch{Kind: "model-runner", Observed: "model runner died: " + err.Error()}
+		}
+		line = strings.TrimRight(line, "\n")
+		if line == "END" {
+			break
+		}
+		if strings.HasPrefix(line, "ERR") {
+			return &Mismatch{Kind: "model-runner", Observed: line}
+		}
+		lines = append(lines, line)
+	}
+	dfaultCompared++
+	for i, r := range recs {
+		if i >= len(lines) {
+			break
+		}
+		parts := strings.SplitN(lines[i], " | ", 2)
+		exp, got := parts[0], r.Obs
+		if !r.Fail {
+			switch r.Op.K {
+			case "asc", "desc", "itasc", "itdesc", "nasc", "ndesc", "nit":
+				exp = stripDepth(exp)
+			case "ascx", "descx":
+				exp, got = stripDepth(exp), stripDepth(got)
+			}
+		} else {
+			dfaultFlushFails++
+		}
+		if exp != got {
+			return &Mismatch{Step: i, Op: r.Line, Kind: "dfault-obs", Expected: exp, Observed: got, Note: "implementation under fault injection vs DFaultRun.dfrun"}
+		}
+		if r.Fail || r.Op.K == "flush" || r.Op.K == "revert" || r.Op.K == "reopen" {
+			if len(parts) == 2 && parts[1] != r.Digest {
+				return &Mismatch{Step: i, Op: r.Line, Kind: "dfault-file", Expected: "file (length md5) " + parts[1], Observed: r.Digest,
+					Note: "the bytes of the implementation's file after this (failed or completed) call differ from the file predicted by DiskFault.flush_fault / DStore"}
+			}
+		}
+	}
+	return nil
+}
